@@ -115,6 +115,11 @@ func (e *Exec) enterMonitor(fr *Frame, st *State, a *Addr) {}
 // ---- discipline -----------------------------------------------------------------
 
 func (p *Prog) fieldDecl(T types.Type, field string) *FieldDecl {
+	p.initFieldDecls()
+	return p.fdCache[fieldArrName(T, field)]
+}
+
+func (p *Prog) initFieldDecls() {
 	if p.fdCache == nil {
 		p.fdCache = map[string]*FieldDecl{}
 		for _, fd := range p.CS.Fields {
@@ -132,7 +137,6 @@ func (p *Prog) fieldDecl(T types.Type, field string) *FieldDecl {
 			}
 		}
 	}
-	return p.fdCache[fieldArrName(T, field)]
 }
 
 // disciplineAccess: obligations for declared protections of struct fields.
@@ -227,6 +231,7 @@ func (e *Exec) accessOrdinal(fr *Frame, in ssa.Instruction, fd *FieldDecl) int {
 
 func (e *Exec) callOpaque(fr *Frame, st *State, in ssa.CallInstruction, c *ssa.CallCommon, fv Val, rt types.Type) Val {
 	mode := ""
+	e.P.initFieldDecls()
 	if fv.Origin != "" {
 		if fd := e.P.fdCache[fv.Origin+"/callback"]; fd != nil {
 			mode = "pure"
@@ -247,6 +252,12 @@ func (e *Exec) callOpaque(fr *Frame, st *State, in ssa.CallInstruction, c *ssa.C
 		// an application handler: may do anything to application state, does not
 		// touch library-private state (assumption recorded per property)
 		e.note("callback: %s calls an application handler (assumed not to touch library-private state)", dispName(fr.fn))
+		for _, m := range e.fc.Modifies {
+			g := strings.TrimSpace(m)
+			if cur, ok := st.ghost[g]; ok && !e.isEpilogueTarget(g) {
+				st.ghost[g] = e.freshVal("g_"+g, cur.T, cur.K)
+			}
+		}
 		e.traceCall(fr, st, in, c, fv)
 	default:
 		e.note("opaque-call: %s calls a function value (result unconstrained; heap havocked)", dispName(fr.fn))
